@@ -469,12 +469,21 @@ class TypeGen:
                 f["required"] = True  # (meaningless on aggregate fields: they are never "absent")
             elif cfg["fall_back"] and chance(d, 0.15):
                 f["fall_back"] = True
-        if cfg["skip"] and flavor == "dataclass" and agg is None and f.get("kind", "normal") == "normal" and chance(d, 0.1):
-            form = pick(d, ["both", "de", "ser", "ser_default", "ser_if"])
+        if cfg["skip"] and flavor == "dataclass" and agg is None and f.get("kind", "normal") == "normal" and chance(d, 0.15):
+            form = pick(d, ["both", "de", "ser", "ser_default", "ser_default", "ser_if", "ser_if"])
+            if form == "ser_default" and chance(d, 0.4) and not f.get("none_as_undefined"):
+                # the usual `x: Optional[X] = None` + skip(serialization_default=True)
+                if f["t"]["k"] not in ("opt", "none", "any") and not any(a["k"] == "none" for a in (M.union_alts(f["t"]) if f["t"]["k"] == "union" else [])):
+                    f["t"] = self.nolit({"k": "opt", "of": f["t"]})
+                f["default"] = {"c": ["none"]}
             if form in ("both", "de") and f.get("default") is None:
                 f["default"] = {"c": value_for(d, self.prog, f["t"], fuel=1, stack=self.stack)}
             if form == "ser_default" and f.get("default") is None:
-                f["default"] = {"c": value_for(d, self.prog, f["t"], fuel=1, stack=self.stack)}
+                alts_ = M.union_alts(f["t"]) if f["t"]["k"] in ("opt", "union") else [f["t"]]
+                if any(a["k"] == "none" for a in alts_) and chance(d, 0.6):
+                    f["default"] = {"c": ["none"]}  # the usual `Optional[X] = None` + skip(serialization_default=True)
+                else:
+                    f["default"] = {"c": value_for(d, self.prog, f["t"], fuel=1, stack=self.stack)}
             f["skip"] = {"both": {"de": True, "ser": True}, "de": {"de": True}, "ser": {"ser": True},
                          "ser_default": {"ser_default": True},
                          "ser_if": {"ser_if": pick(d, ["is_none", "falsy"])}}[form]
@@ -907,7 +916,7 @@ def perturb_value(draw, prog: dict, t: dict, v, depth: int = 0):
                 continue
             r = draw(st.integers(0, 99))
             alts = M.union_alts(f["t"]) if f["t"]["k"] in ("opt", "union") else [f["t"]]
-            if r < 12 and f.get("default") is not None:
+            if r < (45 if (f.get("skip") or {}).get("ser_default") else 12) and f.get("default") is not None:
                 out[n] = f["default"]["c"]
             elif r < 22 and any(a["k"] == "none" for a in alts):
                 out[n] = ["none"]
